@@ -484,6 +484,16 @@ def rv_origins(body, rv, bb, x, depth=0, _seen=None):
         out.append(("binop", rv["op"], side(rv["a"]), side(rv["b"])))
     elif rv["k"] == "agg" and "adt" in rv:
         out.append(("agg", rv["adt"], rv["variant"], bb, x))
+    elif rv["k"] == "agg" and rv.get("tuple"):
+        elems = []
+        for o in rv["ops"]:
+            if o["k"] == "const":
+                elems.append((("const", o["val"]),))
+            else:
+                projs = [pr for pr in o["place"]["proj"] if pr["k"] != "deref"]
+                base = tuple(origins(body, o["place"]["local"], depth + 1, _seen))
+                elems.append((("field", tuple(pr.get("name") or pr.get("variant") for pr in projs), base),) if projs else base)
+        out.append(("tuple", tuple(elems)))
     elif rv["k"] == "discr":
         out += [("discr-of",) + (o,) for o in origins(body, rv["place"]["local"], depth + 1, _seen)]
     return out
